@@ -5,3 +5,6 @@ import LyModel.Props.C05XmlLex
 #print axioms LyModel.Props.C05XmlLex.xml_skip_within_input
 #print axioms LyModel.Props.C05XmlLex.xml_stack_bounded
 #print axioms LyModel.Props.C05XmlLex.xml_close_pops
+#print axioms LyModel.Props.C05XmlLex.xml_ctx_next_within_input
+#print axioms LyModel.Props.C05XmlLex.xml_ctx_next_progress
+#print axioms LyModel.Props.C05XmlLex.xml_lexer_terminates
